@@ -71,6 +71,16 @@ type vpCWRun struct {
 	chainOf   map[int]int
 	done      map[int]bool
 	joinSigns map[int]bool // steps whose certificate the joined node co-signed
+	holds     map[crypto.Hash]map[int]bool // transaction -> chains a snapshot with it was made for
+}
+
+func (r *vpCWRun) holdsAny(hs []crypto.Hash, ci int) bool {
+	for _, h := range hs {
+		if r.holds[h][ci] {
+			return true
+		}
+	}
+	return false
 }
 
 func vpCWBase(net *vpKNet) uint64 {
@@ -114,11 +124,22 @@ func (g *vpCWGen) ordinary(joinBias bool, jump uint64) {
 	i := len(g.steps)
 	st := g.base(joinBias)
 	st.Jump = jump
-	kind := rapid.IntRange(0, 9).Draw(t, "kind")
+	kind := rapid.IntRange(0, 10).Draw(t, "kind")
 	switch {
 	case kind <= 3 || len(g.deposits) == 0:
 		st.Kind = "deposit"
 		st.Asset = rapid.IntRange(0, 1).Draw(t, "asset")
+	case kind == 10:
+		// a transaction some chain finalized already is included once more, by
+		// another chain's snapshot
+		st.Kind, st.Prev = "again", g.deposits[rapid.IntRange(0, len(g.deposits)-1).Draw(t, "again_of")]
+		g.steps = append(g.steps, st)
+		// and the round that holds the repeated transaction is closed by the next
+		// snapshot of that chain (the start-up validator judges final rounds)
+		seal := g.base(false)
+		seal.Kind, seal.Prev, seal.Asset, seal.NewRound = "seal", i, 1, true
+		g.steps = append(g.steps, seal)
+		return
 	case kind <= 5:
 		if d := g.free(g.deposits); d >= 0 {
 			st.Kind, st.Prev = "transfer", d
@@ -244,7 +265,7 @@ func vpCWPrepend(prefix, steps []vpCWStep) []vpCWStep {
 	out := append([]vpCWStep{}, prefix...)
 	for _, st := range steps {
 		switch st.Kind {
-		case "transfer", "custodian", "pledge", "accept":
+		case "transfer", "custodian", "pledge", "accept", "again", "seal":
 			st.Prev += len(prefix)
 		}
 		out = append(out, st)
@@ -258,7 +279,7 @@ func vpCWPrepend(prefix, steps []vpCWStep) []vpCWStep {
 func vpCWDraw(t *rapid.T, nodes int) []vpCWStep { return vpCWDrawMode(t, -1) }
 
 func vpCWNew(k *vpKNode, steps []vpCWStep) *vpCWRun {
-	r := &vpCWRun{k: k, net: k.Net, steps: steps, txOf: map[int][]*common.VersionedTransaction{}, snapOf: map[int]*common.Snapshot{}, chainOf: map[int]int{}, done: map[int]bool{}, joinSigns: map[int]bool{}}
+	r := &vpCWRun{k: k, net: k.Net, steps: steps, txOf: map[int][]*common.VersionedTransaction{}, snapOf: map[int]*common.Snapshot{}, chainOf: map[int]int{}, done: map[int]bool{}, joinSigns: map[int]bool{}, holds: map[crypto.Hash]map[int]bool{}}
 	r.clock = vpCWBase(k.Net)
 	last, err := k.Node.persistStore.ReadLastConsensusSnapshot()
 	if err != nil || last == nil {
@@ -357,12 +378,14 @@ func (r *vpCWRun) prepare(i int) []*common.VersionedTransaction {
 		return r.net.BTCDeposit(common.NewInteger(1), owner, id, i)
 	}
 	switch st.Kind {
-	case "deposit":
+	case "deposit", "seal":
 		txs = append(txs, dep(st.Asset, st.Owner, 0))
 	case "fund":
 		txs = append(txs, r.net.XINDeposit(common.KernelNodePledgeAmount, st.Owner, fmt.Sprintf("0xw%d-fund", i), i))
 	case "batch":
 		txs = append(txs, dep(st.Asset, st.Owner, 0), dep(1-st.Asset, (st.Owner+1)%4, 1))
+	case "again":
+		txs = append(txs, r.prepare(st.Prev)[0])
 	case "transfer":
 		prev := r.prepare(st.Prev)[0]
 		txs = append(txs, r.net.Transfer(prev, r.steps[st.Prev].Owner, []int{st.Owner, (st.Owner + 1) % 4}, i, nil, nil))
@@ -439,6 +462,23 @@ func (r *vpCWRun) snapshot(i int) *common.Snapshot {
 		chainIdx = r.indexOf(node.electSnapshotNode(op, r.clock))
 	} else {
 		chainIdx = r.pickChain(st.Chain, r.clock)
+		if prev, ok := r.chainOf[st.Prev]; st.Kind == "seal" && ok && r.eligible(prev, r.clock) {
+			chainIdx = prev
+		}
+		// a chain holds a transaction once: a snapshot repeating one goes to a
+		// chain that has not included it (no honest signer certifies another)
+		for j := 1; j <= len(r.net.NodeIds) && r.holdsAny(hs, chainIdx); j++ {
+			chainIdx = r.pickChain(st.Chain+j, r.clock)
+		}
+		if r.holdsAny(hs, chainIdx) {
+			panic("every eligible chain already holds the transaction")
+		}
+	}
+	for _, h := range hs {
+		if r.holds[h] == nil {
+			r.holds[h] = map[int]bool{}
+		}
+		r.holds[h][chainIdx] = true
 	}
 	r.chainOf[i] = chainIdx
 	chain := node.getOrCreateChain(r.net.NodeIds[chainIdx])
@@ -770,6 +810,10 @@ func vpCWRunCut(net *vpKNet, steps []vpCWStep, cut *vpCWCut) (out vpCWOutcome) {
 	run2 := vpCWNew(k2, steps)
 	run2.clock = run.clock
 	run2.txOf = run.txOf
+	run2.holds = run.holds
+	for i, ci := range run.chainOf {
+		run2.chainOf[i] = ci
+	}
 	for i := range steps {
 		s := run.snapOf[i]
 		if i < cur && s != nil {
